@@ -71,7 +71,16 @@ def _sig_c18(d, it, codes):
             return "C18/cross-filter-session/distinct-stores"
         return "C18/cross-filter-session/" + ("memory" if item.get("store_j") == "mem" else "redis-same-server-uri")
     if 4 in codes and item.get("kind") == "timeouts":
-        return "C18/foreign-timeouts/" + item.get("rule", "?")
+        # the known finding: the timeouts in force are those of ANOTHER FILTER THAT IS HANDED THE SAME STORE (first one for the
+        # memory store, last one for a Redis server URI); foreign timeouts of any other origin are a different violation
+        fs = (d or {}).get("filters", [])
+        i = item.get("filter")
+        eff = (item.get("effective_absolute_s"), item.get("effective_idle_s"))
+        me = next((f for f in fs if f.get("filter") == i), None)
+        sharers = [f for f in fs if me is not None and f.get("filter") != i and f.get("store") == me.get("store")]
+        if any((f.get("absolute_s"), f.get("idle_s")) == eff for f in sharers):
+            return "C18/foreign-timeouts/" + item.get("rule", "?")
+        return "C18/foreign-timeouts/of-a-filter-with-another-store"
     return None
 
 
@@ -129,7 +138,7 @@ PROPS = {
     },
     "C10": {
         "modules": ["Properties.C10"],
-        "theorems": ["C10_memory_rule_band", "C10_redis_rule_band", "C10_honoured_only_if_alive", "C10_live_session_is_honoured", "C10_created_fixed", "C10_memory_store_follows_its_rule", "C10_redis_store_follows_its_rule"],
+        "theorems": ["C10_memory_rule_band", "C10_redis_rule_band", "C10_honoured_only_if_alive", "C10_live_session_is_honoured", "C10_created_fixed", "C10_memory_store_follows_its_rule", "C10_redis_store_follows_its_rule", "C10_ok_only_if_alive", "C10_ok_within_timeouts"],
         "describe_item": _store_item, "signature": _sig_store,
         "trusted": ["Redis is represented by miniredis (virtual clock via SetTime/FastForward); go-redis and the RFC 3339 time encoding are exercised, not modelled",
                     "the system-level run uses the real start-up wiring (NewSessionStoreFactory.PreRun) and the real clock for the memory store; miniredis does not expire keys in real time, so Redis is covered at store level only"],
